@@ -109,7 +109,7 @@ def run_shard(ctx):
             ctx.stats.label(label)
         return False, fp, None, []
 
-    explore(ctx, cr.strategy(max_pre=6), run_one, 30 if quick else 800)
+    explore(ctx, cr.strategy(max_pre=6), run_one, 30 if quick else 4000)
     ctx.stats.extra['pairs'] = ctx.stats.hist.get('pair-exhaustive', 0) + ctx.stats.hist.get('pair-sampled', 0)
     ctx.stats.evaluations -= ctx.stats.extra['pairs'] + ctx.stats.hist.get('pair-skipped', 0)
 
